@@ -149,7 +149,8 @@ theorem setValue_isLive (f : Forest) (h : Nat) (v : Value) (x : Nat) :
 theorem setValue_W {f : Forest} (w : f.W) (h : Nat) (v : Value)
     (hv : ∀ t, f.get? h = some t → t.kids = [] ∨ v.isElement = true ∨ v.isDocument = true) :
     (f.setValue h v).W := by
-  refine ⟨by rw [allHandles_setValue]; exact w.nodup, ?_⟩
+  refine ⟨by rw [allHandles_setValue]; exact w.nodup, ?_,
+    by rw [allHandles_setValue]; exact w.below⟩
   unfold setValue
   simp only
   rw [← mapAtList_eq_map]
